@@ -104,6 +104,7 @@ def check(case):
     m1, _, phi1 = problem.build_var(P)
     m2, _, phi2 = problem.build_var(Q)
     tag = f"{P['scheme']}:{name}"
+    coefs1, coefs2 = problem.make_coefs(m1, P), problem.make_coefs(m2, Q)
     for k in range(P['steps']):
         if P['scheme'] == 'tvd':
             # K4 exclusion: plain differences over centre distances, as the TVD routines form them
@@ -123,8 +124,8 @@ def check(case):
             if tiny and not case.get('demo_k4'):
                 res.excluded.append('K4')
                 return res
-        problem.step_implicit(m1, phi1, P)
-        problem.step_implicit(m2, phi2, Q)
+        problem.step_implicit(m1, phi1, P, coefs=coefs1)
+        problem.step_implicit(m2, phi2, Q, coefs=coefs2)
         a = np.asarray(phi1._value, float)
         b = np.asarray(phi2._value, float) / K
         if not (np.all(np.isfinite(a)) and np.all(np.isfinite(b))):
